@@ -18,7 +18,8 @@ ASSUMPTIONS = ["theorems are about exact real arithmetic; binary64 rounding is c
                "correspondence check on sampled inputs whose classification is exact",
                "a corner classified 'on' (|offset| <= 1e-8) is read as lying exactly on the plane (hypothesis H0 of "
                "the geometric theorems), as the property text prescribes",
-               "face indices are non-negative (NumPy's negative-index wrap-around is not modelled)"]
+               "negative (NumPy wrap-around) face entries are modelled by a separate layer (slice_faces_plane_z); the geometric "
+               "theorems are stated for non-negative entries, to which that layer reduces"]
 CASE_IMPORTS = [("PW.model", "M_slicing")]
 
 
@@ -125,6 +126,13 @@ def gen_mesh_case(rng, tier, profile):
         else:
             f = [rng.randrange(nv) for _ in range(3)]
         fs.append(f)
+    if kind == "generic" and fs and rng.random() < 0.05:
+        # NumPy wrap-around: entry i - nv reads the same vertex as i
+        kind = "neg_index"
+        for f in fs:
+            for j in range(3):
+                if rng.random() < 0.25:
+                    f[j] -= nv
     if kind == "generic" and fs and rng.random() < 0.03:
         kind = "bad_index"
         fs[rng.randrange(len(fs))][rng.randrange(3)] = nv + rng.randint(0, 2)
@@ -137,7 +145,7 @@ def gen_mesh_case(rng, tier, profile):
         mask = [False for _ in fs]
     else:
         mask = [True for _ in fs]
-    if kind == "generic":
+    if kind == "generic":  # (neg_index / bad_index / empty / all_behind keep their own kind)
         kind = "near_tol" if has_near else ("float_normal" if plane_kind == "float" else
                                             ("on_plane" if on_frac else "generic"))
     return {"kind": kind, "vertices": vs, "faces": fs, "ref": ref, "normal": n, "mask": mask,
@@ -215,7 +223,11 @@ def run_slice(c, extras=()):
 def coq_slice_case(c, o):
     main = o["main"]
     vs = coq_list(qv(v) for v in c["vertices"])
-    fs = coq_list("(mkface %d %d %d)" % tuple(f) for f in c["faces"])
+    neg = any(i < 0 for f in c["faces"] for i in f)
+    if neg:
+        fs = coq_list("(mkzface (%d) (%d) (%d))" % tuple(f) for f in c["faces"])
+    else:
+        fs = coq_list("(mkface %d %d %d)" % tuple(f) for f in c["faces"])
     mask = "None" if c["mask"] is None else "(Some %s)" % coq_list(coq_bool(b) for b in c["mask"])
     if "malformed" in main:
         obs = "(Raise OtherError)"
@@ -232,7 +244,7 @@ def coq_slice_case(c, o):
             coq_bool(len(main["v_shape"]) == 2 and len(main["f_shape"]) == 2 and (not ret or len(main["map_shape"]) == 1)),
             coq_bool(main["v_dtype"] == "float64"), coq_bool(main["f_dtype"] == "int64"),
             coq_bool((not ret) or main["map_dtype"] == "int64"))
-    return "CSlice %s %s %s %s %s %s" % (vs, fs, qv(c["ref"]), qv(c["normal"]), mask, obs)
+    return "%s %s %s %s %s %s %s" % ("CSliceZ" if neg else "CSlice", vs, fs, qv(c["ref"]), qv(c["normal"]), mask, obs)
 
 
 # ---- exact arithmetic helpers for the oracles -------------------------------------------------------------------
@@ -290,8 +302,10 @@ def point_in_face(w, t, slack):
         off = dot(sub(w, t[0]), N)  # distance from the face's plane times |N|
         if off * off > (slack * mag) ** 2 * nn:
             return False
-        return all(x >= -slack for x in ws)
-    # degenerate face: hull is a segment or a point
+        if all(x >= -slack for x in ws):
+            return True
+        # sliver faces make the weights ill-conditioned: fall through to the distance from the face's outline
+    # degenerate (or sliver) face: distance to the nearest edge
     best = None
     for i in range(3):
         for j in range(3):
@@ -387,3 +401,26 @@ def geometry_failure(c, full, rel=Fr(1, 10 ** 9)):
                     % (i, signs, [float(x) for x in got], [float(x) for x in want]))
     return None
 
+
+
+def in_domain(c):
+    """faces index the vertices (NumPy semantics: -k <= i < k for k vertices)"""
+    nv = len(c["vertices"])
+    return all(-nv <= i < nv for f in c["faces"] for i in f)
+
+
+def negative_index_class(c, o, failure):
+    """known finding `negative_index_survives`: a face array with wrapping (negative) entries, and the call raised the
+    ValueError of np.bincount — matched on the input class and the exception, never on the property id alone."""
+    if not failure or "ValueError" not in failure:
+        return None
+    if not any(i < 0 for f in c.get("faces", []) for i in f):
+        return None
+    def raised(x):
+        if isinstance(x, dict):
+            if x.get("raise") == "ValueError" and "negative" in (x.get("msg") or ""):
+                return True
+            return any(raised(v) for v in x.values())
+        return False
+
+    return "negative_index_survives" if raised(o) else None
